@@ -5,7 +5,7 @@ SP = 'src/category/spider.rs'
 
 module('open_hypergraph', uses=['vstd::std_specs::cmp::*'])
 
-typedef(OH, 'InvalidOpenHypergraph')
+typedef(OH, 'InvalidOpenHypergraph', extra_attrs=['#[derive(Debug)]'])
 typedef(OH, 'OpenHypergraph')
 
 raw(r'''
